@@ -321,6 +321,13 @@ def make_bmc(lock_cls, K, depth, rounds, step_delay, hold_bound, crash=False, ex
                                 "kind": "path-property", "message": f"append_logs delivers journal bytes outside the lock: {viol}; calls {aut['io_outside_lock']}"})
             else:
                 res["inconclusive"] = f"extracted paths deliver bytes outside the lock ({aut['io_outside_lock']}) but the replay did not confirm it"
+        if aut["lock_leaked"]:
+            viol, _ = L.replay(lock_cls, [{"p": 0, "call": "create", "now": 0.0}, {"p": 0, "call": "rename", "now": 0.0}], 1, False, 1, fail_write=(0,))
+            if viol:
+                pre_cex.append({"key": f"{lock_cls}:lock-not-released-on-exception", "pre_replayed": True, "values": {}, "choices": [], "notes": {"paths": aut["lock_leaked"][:4]},
+                                "kind": "path-property", "message": f"append_logs leaves its lock behind when it fails: {viol}; paths {aut['lock_leaked'][:3]}"})
+            else:
+                res["inconclusive"] = f"extracted paths leave the lock behind ({aut['lock_leaked'][:3]}) but the replay did not confirm it"
         r = L.bmc(aut, K, depth, crash=crash, rounds=rounds, step_delay=step_delay, hold_bound=hold_bound, timeout_ms=1500000)
         res["queries"] = r["queries"]
         res["solver_s"] = r["solver_s"]
